@@ -1058,12 +1058,19 @@ func parseDate(s string) (cal.Date, error) {
 	return d, err
 }
 
+// the options struct handed to WithOptions by the last struct+func case, and
+// the number of extensions it held: the caller's values must come back intact
+var (
+	callerStruct *bill.CorrectionOptions
+	callerExt    int
+)
+
 func libOptions(c Case) ([]schema.Option, error) {
 	o := c.Opts
 	switch c.Pass {
 	case "data":
 		return []schema.Option{bill.WithData(optsJSON(o))}, nil
-	case "struct":
+	case "struct", "struct+func":
 		co := &bill.CorrectionOptions{Type: cbc.Key(o.Type), Reason: o.Reason, Series: cbc.Code(o.Series), CopyTax: o.CopyTax, Stamps: headStamps(o.Stamps)}
 		if o.IssueDate != "" {
 			d, err := parseDate(o.IssueDate)
@@ -1077,6 +1084,22 @@ func libOptions(c Case) ([]schema.Option, error) {
 			for k, v := range o.Ext {
 				co.Ext[cbc.Key(k)] = cbc.Code(v)
 			}
+		}
+		if c.Pass == "struct+func" {
+			// the struct keeps an extension map of its own (an entry that the
+			// definition does not know would be refused: it carries the first of
+			// the requested entries) and the others follow as functional options
+			keys := vh.SortedKeys(o.Ext)
+			out := []schema.Option{bill.WithOptions(co)}
+			if len(keys) > 0 {
+				co.Ext = tax.Extensions{cbc.Key(keys[0]): cbc.Code(o.Ext[keys[0]])}
+				for _, k := range keys[1:] {
+					out = append(out, bill.WithExtension(cbc.Key(k), cbc.Code(o.Ext[k])))
+				}
+			}
+			callerStruct = co
+			callerExt = len(co.Ext)
+			return out, nil
 		}
 		return []schema.Option{bill.WithOptions(co)}, nil
 	case "func", "":
@@ -1382,6 +1405,10 @@ func judge(c Case, o *vh.Obs) {
 			full := make([]schema.Option, len(opts), len(opts)+3)
 			copy(full, opts)
 			res, rerr = src.Correct(full...)
+			if c.Pass == "struct+func" && callerStruct != nil && len(callerStruct.Ext) != callerExt {
+				o.Failf("correct:caller-options-written", "the options struct given to WithOptions held %d extension(s) and holds %d after the correction (a later option wrote into it)", callerExt, len(callerStruct.Ext))
+				return
+			}
 			if rerr == nil && res != nil {
 				again, err2 := src.Correct(full...)
 				if err2 != nil {
@@ -1954,7 +1981,7 @@ func vectors(di *docInfo) []vector {
 
 type combo struct{ entry, pass string }
 
-var correctCombos = []combo{{"lib", "func"}, {"lib", "struct"}, {"lib", "data"}, {"cli", "data"}, {"cli", "flags"}, {"bulk", "data"}, {"cli-doc", "data"}}
+var correctCombos = []combo{{"lib", "func"}, {"lib", "struct"}, {"lib", "struct+func"}, {"lib", "data"}, {"cli", "data"}, {"cli", "flags"}, {"bulk", "data"}, {"cli-doc", "data"}}
 var replicateEntries = []string{"lib", "cli", "bulk", "cli-doc"}
 
 // sweepDocs: thorough = every corpus invoice; quick = one invoice per
@@ -2187,7 +2214,7 @@ func genCase(t *rapid.T) Case {
 	}
 	switch c.Entry {
 	case "lib":
-		c.Pass = rapid.SampledFrom([]string{"func", "struct", "data"}).Draw(t, "pass")
+		c.Pass = rapid.SampledFrom([]string{"func", "struct", "struct+func", "data"}).Draw(t, "pass")
 	case "cli":
 		c.Pass = rapid.SampledFrom([]string{"data", "flags"}).Draw(t, "pass")
 	default:
@@ -2238,7 +2265,7 @@ func genCase(t *rapid.T) Case {
 func init() {
 	vh.Describe(
 		"Cases = (corpus invoice, option vector, entry point). Source: every example invoice of the repository (73, all regimes and addons), calculated, validated, optionally signed with a generated key and stamped in the header with each provider the published definition requires (present / absent / an unrelated one), optionally with its code removed (or, for the examples without one, a code added), optionally with value_date / op_date. "+
-			"Option vector: type in every published invoice type + {absent, an undefined key}; reason absent/set; ext: each offered key with its first/last published code and an unpublished code, all offered keys, a published key the definition does not offer, an undefined key; required stamps in the header / missing one by one / all missing / handed over in the options; series; issue date; copy_tax; passed as functional options, bill.WithOptions(struct), bill.WithData(JSON) and CLI flags; on the library path the same option values are used for two corrections of the same envelope, which must give the same document (options consumed by the first correction would starve the second). "+
+			"Option vector: type in every published invoice type + {absent, an undefined key}; reason absent/set; ext: each offered key with its first/last published code and an unpublished code, all offered keys, a published key the definition does not offer, an undefined key; required stamps in the header / missing one by one / all missing / handed over in the options; series; issue date; copy_tax; passed as functional options, bill.WithOptions(struct), the struct followed by functional extension options (the struct must come back unchanged), bill.WithData(JSON) and CLI flags; on the library path the same option values are used for two corrections of the same envelope, which must give the same document (options consumed by the first correction would starve the second). "+
 			"Entry points: Envelope.Correct / Replicate, in-process internal/cli Correct / Replicate (envelope and bare-document input), cli.Bulk correct / replicate requests, and the gobl executable (sampled). "+
 			"Oracle: (1) json.Marshal(source) and a reflection dump of everything reachable from the source (unexported fields, signatures) are identical before the call, after it, and after the result was recalculated, stamped (AddStamp overwrites in place), signed, had rows appended and had every reachable scalar, map entry and slice element overwritten in place (undone afterwards). "+
 			"(2) refusal model from data/regimes + data/addons `corrections` (types/extensions/stamps concatenated regime then addons, reason_required OR-ed): refused iff type missing, source without code, a required stamp missing, types defined and the type not among them, reason required and empty, or the edited source does not calculate; CLI/bulk/exec additionally iff the expected result does not validate. The code must refuse exactly then. "+
